@@ -162,6 +162,7 @@ pub fn lanes_for(prop: &str, tier: &str, seed: u64) -> Vec<Scenario> {
         }
         "C20" => {
             v.extend(gen_cli::lane_runs(seed));
+            v.extend(gen_cli::lane_summary(seed, if thorough { 1 } else { 2 }));
             v.extend(gen_cli::lane_cli_fates(seed, if thorough { 1 } else { 4 }));
             v.extend(gen::lane_fates(Tier::Lib, seed));
             v.extend(gen_cli::lane_random(Tier::Cli, seed, n_rand_cli * 2, "C20"));
